@@ -49,7 +49,7 @@ type caseC struct {
 	Body  string      `json:"body"`
 }
 
-var shapes = []string{"absent", "null", "int", "string", "bool", "map", "list", "list1", "listmap"}
+var shapes = []string{"absent", "null", "int", "string", "bool", "map", "list", "list1", "listmap", "float"}
 
 func shapeVal(s string) (v any, absent bool) {
 	switch s {
@@ -63,6 +63,10 @@ func shapeVal(s string) (v any, absent bool) {
 		return "str", false
 	case "bool":
 		return true, false
+	case "float":
+		// A whole number spelled as a float ("7.0"): the loaders of all schema
+		// versions accept it for integer settings.
+		return &yaml.Node{Kind: yaml.ScalarNode, Tag: "!!float", Value: "7.0"}, false
 	case "map":
 		return map[string]any{}, false
 	case "list":
